@@ -24,6 +24,7 @@ CONSTANTS Widths,    \* set of leaf widths; one is chosen per behaviour
           MaxW,      \* largest width a handle may reach (compositions / widening multiply)
           FreshOnly, \* TRUE: every call after the first must use the newest handle (exhaustive configs)
           Ops,       \* set of action kinds enabled
+          MapSrc,    \* {} : any handle may be stored by mset; else only these (exhaustive partial-write configs)
           Rand       \* TRUE (simulation configs): operand handles are drawn with RandomElement instead of
                      \* being enumerated, so that a step has ~100 candidate successors instead of ~10^4
 
@@ -112,12 +113,16 @@ SetSf == \E i \in Pick1((NLeaves + 1)..N), sf \in {0, 1} :
          /\ Push(pool[i], [act |-> "setsf", i |-> i, sf |-> sf])
 
 (* one mapper M lives through the behaviour; r is a register of 2W bits.
-   mset: M[r[pos:pos+n]] = handle j (partial register write), the new handle is M(r[pos:pos+n]);
+   mset: M[r[pos:pos+n]] = handle j [lo:lo+n] (partial register write), the new handle is M(r[pos:pos+n]);
    mget: the new handle is M(r), the whole register as the map now sees it *)
-MSet == \E pos \in Pick1(0..(2 * W - 1)) : \E j \in Pick1({k \in All : pos + pool[k] <= 2 * W}) :
-         /\ "mset" \in Ops /\ Uses({j})
-         /\ Push(pool[j], [act |-> "mset", j |-> j, pos |-> pos, n |-> pool[j]])
+MSet == \E j \in Pick1(IF MapSrc = {} THEN All ELSE MapSrc) :
+        \E lo \in Pick1(IF MapSrc = {} THEN 0..(pool[j] - 1) ELSE {0}) :
+        \E n \in Pick1(1..(pool[j] - lo)) :
+        \E pos \in Pick1({p \in 0..(2 * W - 1) : p + n <= 2 * W}) :
+         /\ "mset" \in Ops /\ (MapSrc = {} => Uses({j}))
+         /\ Push(n, [act |-> "mset", j |-> j, lo |-> lo, pos |-> pos, n |-> n])   \* value = handle j [lo : lo+n]
 MGet == /\ "mget" \in Ops /\ 2 * W <= MaxW /\ (IF Steps = 0 THEN TRUE ELSE h[Steps].act # "mget")
+        /\ (MapSrc # {} => Steps = MaxSteps - 1)     \* partial-write configs: read the register back once, last
         /\ Push(2 * W, [act |-> "mget"])
 
 (* a complete behaviour is printed exactly once, by its own (single) successor step: in simulation
